@@ -17,6 +17,7 @@ for m in sorted(glob.glob(os.path.join(V, "seeded", "*", "meta.json"))):
 table = "| seeded change | needs | quick checks that report it | first violation reported / note |\n|---|---|---|---|\n" + "\n".join(rows) + "\n"
 p = os.path.join(V, "DESIGN.md")
 s = open(p).read()
-s = re.sub(r"<!-- SEEDED-TABLE-BEGIN -->.*<!-- SEEDED-TABLE-END -->", "<!-- SEEDED-TABLE-BEGIN -->\n" + table + "<!-- SEEDED-TABLE-END -->", s, flags=re.S)
+repl = "<!-- SEEDED-TABLE-BEGIN -->\n" + table + "<!-- SEEDED-TABLE-END -->"
+s = re.sub(r"<!-- SEEDED-TABLE-BEGIN -->.*<!-- SEEDED-TABLE-END -->", lambda m: repl, s, flags=re.S)
 open(p, "w").write(s)
 print(len(rows), "rows")
